@@ -14,3 +14,13 @@ PROPS["C16"] = dict(
                  "strings.Compare is bytewise lexicographic"],
     explanation="theorems over the struct-level model of Compare/Equal/Sort; model tied to sexpr/ast by differential execution",
 )
+
+PROPS["C01"] = dict(
+    model="Unify.v",
+    harness=[dict(name="main", n_quick=2500, n_thorough=2500, shards_quick=1, shards_thorough=12)],
+    trusted=["symbols/strings are interned injectively to numbers by the harness; variables are identified by Index alone (as assv/Variable.Equal do)",
+             "the harness's independent reference unifier (direct oracle for verdict / most-general)"],
+    assumptions=["terms are those built by the exported ast constructors; start substitutions are acyclic with distinct keys",
+                 "uint64 counters do not wrap (2^64 fresh variables are unreachable)"],
+    explanation="soundness / most-general / failure / goal theorems over the fuelled transcription of micro's unify; tie by differential execution of unify, EqualO, walk, occurs, exts, walkStar (hook micro/export_verif.go)",
+)
